@@ -28,6 +28,20 @@ class SubExact(ExactPadding):
     __slots__ = ()
 
 
+class CustomPadding(Padding):
+    """A concrete padding written against the documented extension API only."""
+
+    __slots__ = ("left", "top", "right", "bottom")
+
+    def __init__(self, left=0, top=0, right=0, bottom=0, fill=" "):
+        super().__init__(fill)
+        for name, value in zip(self.__slots__, (left, top, right, bottom)):
+            object.__setattr__(self, name, value)
+
+    def _get_exact_dimensions_(self, render_size):
+        return self.left, self.top, self.right, self.bottom
+
+
 class SubSize(Size):
     __slots__ = ()
 
@@ -36,10 +50,10 @@ class SubColor(Color):
     __slots__ = ()
 
 
-CLS = {c.__name__: c for c in (AlignedPadding, SubAligned, ExactPadding, SubExact, Size, SubSize, RawSize,
-                               Color, SubColor)}
+CLS = {c.__name__: c for c in (AlignedPadding, SubAligned, ExactPadding, SubExact, CustomPadding, Size, SubSize,
+                               RawSize, Color, SubColor)}
 KIND = {"AlignedPadding": "aligned", "SubAligned": "aligned", "ExactPadding": "exact", "SubExact": "exact",
-        "Size": "size", "SubSize": "size", "RawSize": "size", "Color": "color", "SubColor": "color", "str": "str"}
+        "CustomPadding": "exact", "Size": "size", "SubSize": "size", "RawSize": "size", "Color": "color", "SubColor": "color", "str": "str"}
 
 # symbols of ValueTypesCore (hex colour strings): 0..15 '0'..'f', 16..21 'A'..'F', 22 '#', then
 # characters that are NOT hex digits
@@ -97,7 +111,7 @@ class World:
     def kind(o) -> str:
         if isinstance(o, AlignedPadding):
             return "aligned"
-        if isinstance(o, ExactPadding):
+        if isinstance(o, (ExactPadding, CustomPadding)):
             return "exact"
         if isinstance(o, Color):
             return "color"
@@ -192,6 +206,8 @@ class World:
             return "obj", cls(bottom=n[3], right=n[2], top=n[1], left=n[0], fill=s[0])
         if nm == "new_exact_default":
             return "obj", CLS[op["cls"]]()
+        if nm == "new_abstract":
+            return "obj", Padding(*s)
         if nm == "resolve":
             return "obj", o.resolve(os.terminal_size((n[0], n[1])))
         if nm == "to_exact":
